@@ -151,8 +151,8 @@ def run_case(case: Dict[str, Any]) -> Tuple[Any, List[str], str]:
             argv = ["-n", "-o", ws.out]
         else:
             shape = CS.shapes()[case["shape"]]
-            ini = ws.write("config.ini", CS.ini_for(shape, methods=cfg["section"]))
-            ods = cli.write_ods(os.path.join(ws.inp, "input.ods"), CS.matrices(shape))
+            ini = ws.write("config.ini", CS.ini_for(shape, methods=cfg["section"], name=case["shape"]))
+            ods = cli.write_ods(os.path.join(ws.inp, "input.ods"), CS.matrices(shape, name=case["shape"]))
             argv = ["-o", ws.out]
         if cfg["method"]:
             argv += ["-m", cfg["method"]]
